@@ -48,7 +48,7 @@ def r1b_helper(rep, src):
     for cname, build in ((C10.DUP, 'dup'), (C10.NOD, 'nodup')):
         log = []
         heap = H.Heap(src.mod(PM), field_alias={'_previous_node': 'previous_node'}, extra_modules=[src.mod('_util'), src.mod('_deb822_repro.tokens')],
-                      opaque_ctors={'Deb822NewlineAfterValueToken', 'Deb822WhitespaceToken'}, hooks={'_strI': lambda it, a, k: a[0]})
+                      opaque_ctors={'Deb822NewlineAfterValueToken', 'Deb822WhitespaceToken'}, hooks={'_strI': lambda it, a, k: H.Key(a[0].lower(), a[0]) if isinstance(a[0], str) else a[0]})
         names = [H.Key('a', 'A'), H.Key('b', 'B'), H.Key('c', 'C')]
         kvs, lines_of = [], {}
         for i, k in enumerate(names):
